@@ -2,6 +2,7 @@ package main
 
 import (
 	"fmt"
+	"go/ast"
 	"go/token"
 	"go/types"
 	"os"
@@ -106,8 +107,16 @@ func (e *Engine) loopsOf(fn *ssa.Function) map[*ssa.BasicBlock]*loopInfo {
 		heads = append(heads, h)
 	}
 	sort.Slice(heads, func(i, j int) bool { return heads[i].Index < heads[j].Index })
+	// Contracts number the loops of a function in source order.  When the ledger
+	// recorded the loop headers of the unchanged tree and the current headers are
+	// the same headers in another order (independent loops were swapped), each
+	// loop keeps the number its header had: the invariants follow their loop.
+	remap := e.loopRemap(fn, len(heads))
 	for i, h := range heads {
 		loops[h].ordinal = i + 1
+		if remap != nil {
+			loops[h].ordinal = remap[i]
+		}
 		for _, ins := range h.Instrs {
 			if n, ok := ins.(*ssa.Next); ok {
 				if r, ok := n.Iter.(*ssa.Range); ok {
@@ -118,6 +127,102 @@ func (e *Engine) loopsOf(fn *ssa.Function) map[*ssa.BasicBlock]*loopInfo {
 	}
 	e.loopCache[fn] = loops
 	return loops
+}
+
+// loopHeaders: the source text of the headers ("for ... " up to the opening
+// brace, whitespace normalised) of the loops of fn in source order, nested
+// function literals excluded.
+func (e *Engine) loopHeaders(fn *ssa.Function) []string {
+	syn := fn.Syntax()
+	if syn == nil {
+		return nil
+	}
+	var body *ast.BlockStmt
+	switch x := syn.(type) {
+	case *ast.FuncDecl:
+		body = x.Body
+	case *ast.FuncLit:
+		body = x.Body
+	}
+	if body == nil {
+		return nil
+	}
+	var out []string
+	text := func(from, to token.Pos) string {
+		pf, pt := e.prog.Fset.Position(from), e.prog.Fset.Position(to)
+		b, err := e.readSource(pf.Filename)
+		if err != nil || pf.Offset < 0 || pt.Offset > len(b) || pf.Offset > pt.Offset {
+			return ""
+		}
+		return strings.Join(strings.Fields(string(b[pf.Offset:pt.Offset])), " ")
+	}
+	ast.Inspect(body, func(n ast.Node) bool {
+		switch x := n.(type) {
+		case *ast.FuncLit:
+			return false
+		case *ast.ForStmt:
+			out = append(out, text(x.Pos(), x.Body.Lbrace))
+		case *ast.RangeStmt:
+			out = append(out, text(x.Pos(), x.Body.Lbrace))
+		}
+		return true
+	})
+	return out
+}
+
+func (e *Engine) readSource(name string) ([]byte, error) {
+	if b, ok := e.srcCache[name]; ok {
+		return b, nil
+	}
+	b, err := os.ReadFile(name)
+	if err != nil {
+		return nil, err
+	}
+	if e.srcCache == nil {
+		e.srcCache = map[string][]byte{}
+	}
+	e.srcCache[name] = b
+	return b, nil
+}
+
+// loopRemap: nil, or for each loop in source order the contract's number for it.
+func (e *Engine) loopRemap(fn *ssa.Function, n int) []int {
+	want := e.ledgerLoopKeys[fn.String()]
+	if len(want) != n || n < 2 {
+		return nil
+	}
+	have := e.loopHeaders(fn)
+	if len(have) != n {
+		return nil
+	}
+	pos := map[string]int{}
+	for i, k := range want {
+		if _, dup := pos[k]; dup || k == "" {
+			return nil
+		}
+		pos[k] = i + 1
+	}
+	out := make([]int, n)
+	used := map[int]bool{}
+	changed := false
+	for i, k := range have {
+		j, ok := pos[k]
+		if !ok || used[j] {
+			return nil
+		}
+		used[j] = true
+		out[i] = j
+		if j != i+1 {
+			changed = true
+		}
+	}
+	if !changed {
+		return nil
+	}
+	if e.cur != nil {
+		e.note(fmt.Sprintf("loops of %s were reordered in the source; invariants follow their loop headers", fn.Name()))
+	}
+	return out
 }
 
 // atLoopHead implements the cut: returns true when execution continues into
@@ -253,6 +358,41 @@ func (e *Engine) localLookup(st *State, fn *ssa.Function) func(string) (Value, b
 		}
 		return found, ok
 	}
+}
+
+// hasLocal: does the function declare a local variable, parameter or captured
+// variable of that name (name#k: at least k declarations)?  A contract that names
+// a local the source no longer has does not match the source any more: that is a
+// specification error (the function is undecided), never a failed obligation.
+func hasLocal(fn *ssa.Function, name string) bool {
+	want := 1
+	base := name
+	if i := strings.Index(name, "#"); i >= 0 {
+		fmt.Sscanf(name[i+1:], "%d", &want)
+		base = name[:i]
+	}
+	n := 0
+	for _, b := range fn.Blocks {
+		for _, ins := range b.Instrs {
+			if a, ok := ins.(*ssa.Alloc); ok && a.Comment == base {
+				n++
+			}
+		}
+	}
+	if n >= want {
+		return true
+	}
+	for _, p := range fn.Params {
+		if p.Name() == base {
+			return true
+		}
+	}
+	for _, fv := range fn.FreeVars {
+		if fv.Name() == base {
+			return true
+		}
+	}
+	return false
 }
 
 // havocLoop forgets everything the loop body may change.
@@ -865,7 +1005,49 @@ func (e *Engine) loopCallEffects(st *State, fr *frame, li *loopInfo, cc *ssa.Cal
 	if fn.Blocks == nil || depth > 6 {
 		return
 	}
-	// inlined callee: its stores (roots are not loop-invariant in general)
+	// inlined callee: its stores.  A root reached from a parameter whose argument
+	// is loop-invariant in the caller is as invariant as that argument (so that
+	// extracting a few lines of a loop body into a helper changes nothing).
+	spill := map[*ssa.Alloc]*ssa.Parameter{}
+	stores := map[*ssa.Alloc]int{}
+	for _, b := range fn.Blocks {
+		for _, ins := range b.Instrs {
+			if s, ok := ins.(*ssa.Store); ok {
+				if a, ok := s.Addr.(*ssa.Alloc); ok {
+					stores[a]++
+					if p, ok := s.Val.(*ssa.Parameter); ok {
+						spill[a] = p
+					}
+				}
+			}
+		}
+	}
+	var calleeInv func(v ssa.Value) (Value, bool)
+	calleeInv = func(v ssa.Value) (Value, bool) {
+		switch x := v.(type) {
+		case *ssa.Parameter:
+			for i, p := range fn.Params {
+				if p == x && i < len(cc.Args) {
+					return inv(cc.Args[i])
+				}
+			}
+		case *ssa.UnOp:
+			if x.Op == token.MUL {
+				if a, ok := x.X.(*ssa.Alloc); ok && stores[a] == 1 && spill[a] != nil {
+					return calleeInv(spill[a])
+				}
+			}
+		case *ssa.FieldAddr:
+			if bv, ok := calleeInv(x.X); ok {
+				if bp, ok := bv.(PtrV); ok && bp.Cell == 0 {
+					return bp.field(x.Field, x.Type().(*types.Pointer).Elem()), true
+				}
+			}
+		case *ssa.Const:
+			return e.val(st, v), true
+		}
+		return nil, false
+	}
 	for _, b := range fn.Blocks {
 		for _, ins := range b.Instrs {
 			switch x := ins.(type) {
@@ -910,13 +1092,30 @@ func (e *Engine) loopCallEffects(st *State, fr *frame, li *loopInfo, cc *ssa.Cal
 					*allocKeys = append(*allocKeys, e.leafKeys(key, x.Val.Type(), dims)...)
 					continue
 				}
+				if rv, ok := calleeInv(root); ok {
+					var ref Term
+					switch y := rv.(type) {
+					case PtrV:
+						if y.Cell == 0 && y.Global == nil && len(y.Path) == 0 {
+							ref = y.Ref
+						}
+					case SliceV:
+						ref = y.Arr
+					}
+					if !ref.IsZero() {
+						for _, ks := range e.leafKeys(key, x.Val.Type(), dims) {
+							slot(ks, ref)
+						}
+						continue
+					}
+				}
 				*whole = append(*whole, e.leafKeys(key, x.Val.Type(), dims)...)
 			case *ssa.MapUpdate:
 				mt := x.Map.Type().Underlying().(*types.Map)
 				*whole = append(*whole, e.mapDomKS(mt), e.mapLenKS(mt))
 				*whole = append(*whole, e.mapValKS(mt)...)
 			case ssa.CallInstruction:
-				e.loopCallEffects(st, fr, li, x.Common(), func(ssa.Value) (Value, bool) { return nil, false }, whole, allocKeys, slot, depth+1)
+				e.loopCallEffects(st, fr, li, x.Common(), calleeInv, whole, allocKeys, slot, depth+1)
 			case *ssa.Alloc, *ssa.MakeSlice, *ssa.MakeMap, *ssa.MakeInterface:
 				*allocKeys = append(*allocKeys, e.allocEffects(ins)...)
 			}
@@ -1411,6 +1610,9 @@ func (e *Engine) verifyCase(fn *ssa.Function, c *Contract, cs *Case, res *FuncRe
 					v, ok = r.ghost["wit:"+strings.TrimSpace(strings.TrimPrefix(w.Local, "callee "))]
 				}
 				if !ok {
+					if !strings.HasPrefix(w.Local, "callee ") && !hasLocal(fn, w.Local) {
+						sfail("witness %s: the function has no local variable %s (contract no longer matches the source)", w.Name, w.Local)
+					}
 					// the local was never reached on this path: its zero value
 					wt := e.resolveType(pkgOf(fn), w.Type)
 					v = wrapTyped(e.zeroValue(wt), wt)
